@@ -192,7 +192,10 @@ fn parse_time_str(timestamp: &str) -> u64 {
     let dot_idx = timestamp.find('.').unwrap_or(timestamp.len());
 
     let timestamp_secs_us: u64 =
-        timestamp[0..dot_idx].parse::<u64>().unwrap_or_default() * US_PER_SEC;
+        timestamp[0..dot_idx]
+            .parse::<u64>()
+            .unwrap_or_default()
+            .saturating_mul(US_PER_SEC);
 
     let timestamp_fraction_us = if dot_idx < timestamp.len() {
         let timestamp_fraction_str = &timestamp[dot_idx + 1..];
@@ -215,7 +218,7 @@ fn parse_time_str(timestamp: &str) -> u64 {
     } else {
         0
     };
-    timestamp_secs_us + timestamp_fraction_us
+    timestamp_secs_us.saturating_add(timestamp_fraction_us)
 }
 
 /// parse a mmdd string into a NaiveDate:
@@ -327,7 +330,7 @@ where
                             self.get_apid_info_msg(
                                 &apid,
                                 tag,
-                                self.recorded_start_time_us + timestamp_us,
+                                self.recorded_start_time_us.saturating_add(timestamp_us),
                                 timestamp_us,
                             )
                         } else {
@@ -341,7 +344,9 @@ where
                         let mtin: u8 = log_level as u8;
                         let log_msg = DltMessage {
                             index,
-                            reception_time_us: self.recorded_start_time_us + timestamp_us, // should be from last... (but we'd need to scan all)
+                            reception_time_us: self
+                                .recorded_start_time_us
+                                .saturating_add(timestamp_us), // should be from last... (but we'd need to scan all)
                             ecu: self.ecu.to_owned(),
                             timestamp_dms: self.timestamp_dms_from(timestamp_us),
                             standard_header: DltStandardHeader {
@@ -395,7 +400,10 @@ where
                                     .unwrap_or_default()
                                     as u64;
                                 self.threadtime_last_monotonic_timestamp = timestamp_us;
-                                (timestamp_us, self.recorded_start_time_us + timestamp_us)
+                                (
+                                    timestamp_us,
+                                    self.recorded_start_time_us.saturating_add(timestamp_us),
+                                )
                             } else {
                                 // here we'd need to use the max timestamp_us from the case a) as first timestamp
                                 let recorded_time_us =
@@ -405,8 +413,8 @@ where
                                 {
                                     recorded_time_us.saturating_sub(timestamp_reference)
                                 } else {
-                                    let timestamp_reference =
-                                        recorded_time_us - self.threadtime_last_monotonic_timestamp;
+                                    let timestamp_reference = recorded_time_us
+                                        .saturating_sub(self.threadtime_last_monotonic_timestamp);
                                     self.threadtime_timestamp_reference = Some(timestamp_reference);
                                     self.threadtime_last_monotonic_timestamp
                                 };
